@@ -144,7 +144,11 @@ pub fn draw_sched_with(rng: &mut Rng, n_threads: usize, est_len: u32, per_task: 
             SchedKind::Handoff { first: first as u8, after: after as u32 }
         }
     };
-    SchedSpec { kind, seed: rng.next(), early_wake_pm: if rng.chance(0.3) { 50 + rng.below(300) as u16 } else { 0 }, fair_after: FAIR_AFTER, replay: None }
+    let seed = rng.next();
+    let early_wake_pm = if rng.chance(0.3) { 50 + rng.below(300) as u16 } else { 0 };
+    // half of the schedules follow the plain-read probe of the instrumented STM
+    let steer_pm = if rng.chance(0.5) { [300, 600, 1000][rng.below(3)] } else { 0 };
+    SchedSpec { kind, seed, early_wake_pm, fair_after: FAIR_AFTER, replay: None, steer_pm }
 }
 
 pub fn sched_name(k: &SchedKind) -> String {
@@ -965,6 +969,8 @@ fn run_scenario(i: u64, seed: u64, c: &mut Counters) -> Vec<Violation> {
         c.add("context_switches", info.sched.context_switches);
         c.add("f3_early_wakes", info.sched.early_wakes);
         c.add("f4_stalled_decisions", info.sched.stalled_decisions);
+        c.add("probe_plain_reads_inside_transaction_bodies", info.stm.plain_reads_in_body);
+        c.add("probe_steered_handoffs", info.sched.steered_handoffs);
         if spec.early_wake_pm > 0 {
             c.inc("f3_configured");
         }
